@@ -1,11 +1,13 @@
 package main
 
 import (
+	"context"
 	"encoding/json"
 	"errors"
 	"fmt"
 	"math/rand"
 	"strings"
+	"time"
 
 	"github.com/Query-farm/vgi-rpc-go/vgirpc"
 	"github.com/apache/arrow-go/v18/arrow"
@@ -177,7 +179,7 @@ func c05Gen(r *rand.Rand, n int, tier string) []c05In {
 }
 
 var c05Framework = []string{"fw_pipe_gate_unary", "fw_pipe_gate_absent", "fw_pipe_gate_stream", "fw_http_gate_unary", "fw_http_gate_init",
-	"fw_pipe_unknown", "fw_http_unknown", "fw_pipe_badparams", "fw_http_badparams", "fw_pipe_stream_badparams", "fw_http_init_badparams"}
+	"fw_http_draining_opensession", "fw_pipe_unknown", "fw_http_unknown", "fw_pipe_badparams", "fw_http_badparams", "fw_pipe_stream_badparams", "fw_http_init_badparams"}
 
 // c05RunFramework provokes an error raised by the server itself and reads the error value back from the wire.
 func c05RunFramework(in c05In) []byte {
@@ -208,6 +210,22 @@ func c05RunFramework(in c05In) []byte {
 	case "fw_http_gate_init":
 		s.SetProtocolVersion("2.10.3")
 		return DoHTTP(hs(), "POST", "/exch/init", ReqBytes(PIntBatch(1), StdMeta("exch", "rid", "")), nil).Body
+	case "fw_http_draining_opensession":
+		// a typed refusal the framework hands to user code, which returns it unchanged: sticky sessions enabled,
+		// the server draining, a request that asks for a session; the handler passes OpenSession's error through
+		s2 := vgirpc.NewServer()
+		s2.SetDebugErrors(in.Debug)
+		vgirpc.Unary(s2, "open", func(_ context.Context, cc *vgirpc.CallContext, p PInt) (int64, error) {
+			st := p.X
+			if err := cc.OpenSession(&st, 0); err != nil {
+				return 0, err
+			}
+			return p.X, nil
+		})
+		h2 := vgirpc.NewHttpServer(s2)
+		h2.EnableSticky(time.Minute)
+		h2.DrainHandle().Drain()
+		return DoHTTP(h2, "POST", "/open", ReqBytes(PIntBatch(1), StdMeta("open", "rid", "")), map[string]string{"VGI-Session-Accept": "true"}).Body
 	case "fw_pipe_unknown":
 		b, _ := RunPipe(s, ReqBytes(PIntBatch(1), StdMeta("no_such_method", "rid", "")))
 		return b
@@ -331,6 +349,8 @@ func c05Run(in c05In) CaseOut {
 		// the error value as the wire shows it; the gate paths insist on the typed ProtocolVersionError
 		if strings.Contains(in.Path, "_gate_") {
 			src = App("C05.Returned", App("C05.GProtoVer", B(o.Msg)))
+		} else if strings.Contains(in.Path, "_draining_") {
+			src = App("C05.Returned", "C05.GDraining")
 		} else if strings.Contains(in.Path, "_unknown") {
 			src = App("C05.Returned", App("C05.GNotImplMsg", B(o.Msg)))
 		} else {
